@@ -1055,3 +1055,10 @@ func loadedFieldS(v ssa.Value, s Subst) (*types.Named, string, ssa.Value, bool) 
 	}
 	return loadedField(v)
 }
+
+// NewAlwaysInstr: an instruction predicate "executing in necessarily performs
+// pred" (pred itself, or a call of a function that always performs it).
+func NewAlwaysInstr(p *Program, pred func(ssa.Instruction) bool) func(ssa.Instruction) bool {
+	a := p.NewAlways(pred)
+	return a.Instr
+}
